@@ -25,6 +25,8 @@ pub enum Step {
     AcceptJunk(Vec<u8>),
     /// accept, send these bytes, keep the connection healthy for this many (virtual) seconds, close
     AcceptSendHold(Vec<u8>, i64),
+    /// accept, send the head, really pause this many ms in the middle of the line, send the tail, close
+    AcceptSplitLine(Vec<u8>, u64, Vec<u8>),
 }
 
 impl Step {
@@ -36,6 +38,7 @@ impl Step {
             Step::AcceptPartialReset(b) => format!("accept+partial({} bytes)+reset", b.len()),
             Step::AcceptJunk(b) => format!("accept+junk({} bytes)+close", b.len()),
             Step::AcceptSendHold(b, t) => format!("accept+frames({} bytes)+healthy for {t} s+close", b.len()),
+            Step::AcceptSplitLine(h, ms, t) => format!("accept+{} bytes+pause {ms} ms mid-line+{} bytes+close", h.len(), t.len()),
         }
     }
 }
@@ -238,6 +241,14 @@ pub fn run_script(opts: &[&str], script: &[Step], healthy: &[u8], expect_in_fina
                     Some(Step::AcceptClose) => drop(s),
                     Some(Step::AcceptSend(b)) | Some(Step::AcceptJunk(b)) => {
                         let _ = s.write_all(b);
+                        let _ = s.flush();
+                        drop(s);
+                    }
+                    Some(Step::AcceptSplitLine(h, ms, t)) => {
+                        let _ = s.write_all(h);
+                        let _ = s.flush();
+                        shim::real_sleep_us(*ms * 1000);
+                        let _ = s.write_all(t);
                         let _ = s.flush();
                         drop(s);
                     }
